@@ -1,6 +1,7 @@
 package hooks
 
 import (
+	"fmt"
 	"time"
 
 	sdk "github.com/cosmos/cosmos-sdk/types"
@@ -22,6 +23,7 @@ type params struct {
 	Drop     uint64 `json:"drop"` // price of the collateral assets after the drop
 	Gap      int64  `json:"gap"`  // seconds between the last block of the history and the hook run
 	Bid      int64  `json:"bid"`
+	Drop4    bool   `json:"drop4"` // the collateral of the second CDP app falls too
 }
 
 func newParams(r *sim.Rng, variant int) params {
@@ -32,6 +34,7 @@ func newParams(r *sim.Rng, variant int) params {
 		p.Drop = []uint64{1000000, 900000, 1100000}[r.Intn(3)]
 		p.Gap = []int64{6, 6, 1800, 3599, 3601, 7300}[r.Intn(6)]
 		p.Bid = []int64{100000, 200000, 350000}[r.Intn(3)]
+		p.Drop4 = r.Intn(3) > 0
 	}
 	return p
 }
@@ -40,6 +43,12 @@ type stateBuilder struct {
 	name  string
 	build func(w *world, p params) []string // returns the hooks to enumerate on the state
 }
+
+// states built with an environment fault (configuration missing, price inactive, account short, ...)
+var envFaultStates = map[string]bool{"oracle_down": true, "price_inactive_unsafe": true, "dutch_disabled": true, "dutch_disabled_lend": true,
+	"english_surplus_close_nomint": true, "english_debt_close_nomint": true, "surplus_collector_empty": true, "lend_collateral_lent_out": true,
+	"lend_full_uopt1": true, "lend_only_stable_debt": true, "oracle_zero_prices": true, "v1_no_auction_params": true,
+	"v1_two_apps_one_unconfigured": true, "debt_price_inactive_two_apps": true, "v1_lend_no_params": true, "two_apps_one_dutch_disabled": true}
 
 // advance moves the working context to the header of the next block (height+1, time+dt) without running any hook:
 // the hook cases then run "the begin blocker of the next block" on it.
@@ -60,9 +69,32 @@ func (w *world) atHeight(h int64) {
 }
 
 func (w *world) mustBlock(dt time.Duration) {
-	if br := w.block(dt); br.Panic {
+	br := w.block(dt)
+	w.hist = append(w.hist, histRec{What: "block", Returned: !br.Panic, PanicS: short(br.Err)})
+	if br.Panic {
 		w.note("history block panicked: %s", short(br.Err))
 	}
+}
+
+// histHook runs a hook that the application does not wire (V1 begin blockers) as a step of the state's history: on a
+// branch that is written back only when the hook returns (a panicking begin blocker means the block is never committed).
+func (w *world) histHook(name string) {
+	c, write := w.Ctx.CacheContext()
+	rec := histRec{What: name, Returned: true}
+	func() {
+		defer func() {
+			if r := recover(); r != nil {
+				rec.Returned, rec.PanicS = false, short(fmt.Sprint(r))
+			}
+		}()
+		hookByName(name).fn(w, c)
+	}()
+	if rec.Returned {
+		write()
+	} else {
+		w.note("history hook %s panicked: %s", name, rec.PanicS)
+	}
+	w.hist = append(w.hist, rec)
 }
 
 func (w *world) dropPrices(p params) {
@@ -74,9 +106,13 @@ func (w *world) unsafe(p params) {
 	w.base("0.5")
 	w.lending(p.NBorrows)
 	w.vaults(p.NVaults)
+	w.vaults2(2)
 	w.mustBlock(6 * time.Second)
 	w.mustBlock(26 * time.Hour) // stability fee and borrow interest accrue: a liquidation step writes them first
 	w.dropPrices(p)
+	if p.Drop4 {
+		w.setPrice(w.asset["uasset4"], p.Drop, true) // the second CDP app's collateral falls too
+	}
 }
 
 // running auctions: the unsafe positions were seized by the real begin blocker, a bidder placed a market bid and a limit bid
@@ -162,7 +198,7 @@ func (w *world) v1auctions(p params) {
 	w.mustBlock(6 * time.Second)
 	w.dropPrices(p)
 	w.advance(6 * time.Second)
-	hookByName("liqv1").fn(w, w.Ctx)
+	w.histHook("liqv1")
 	w.note("v1 locked vaults=%d v1 dutch auctions=%d", len(w.App.LiquidationKeeper.GetLockedVaults(w.Ctx)), len(w.App.AuctionKeeper.GetDutchAuctions(w.Ctx, w.app["harbor"])))
 }
 
@@ -176,7 +212,7 @@ func (w *world) v1esm(p params) {
 	w.mustBlock(6 * time.Second)
 	w.dropPrices(p)
 	w.advance(6 * time.Second)
-	hookByName("liqv1").fn(w, w.Ctx)
+	w.histHook("liqv1")
 	w.esmExecute()
 	w.mustBlock(6 * time.Second) // esm begin blocker takes the price snapshot
 	w.advance(400 * time.Second)
@@ -224,8 +260,108 @@ func (w *world) oracleLive(rates []uint64, valid bool) {
 	k.SetDiscardData(w.Ctx, bandtypes.DiscardData{BlockHeight: -1, DiscardBool: false})
 }
 
+// v1two: two CDP apps white-listed for V1 liquidation, vaults in both.
+func (w *world) v1two(p params, params1, params2 bool) {
+	w.base("0.5")
+	w.v1app("harbor", params1)
+	w.v1app("osmovlt", params2)
+	w.vaults(p.NVaults)
+	w.vaults2(2)
+	w.mustBlock(6 * time.Second)
+	w.mustBlock(26 * time.Hour)
+}
+
 func stateBuilders() []stateBuilder {
 	return []stateBuilder{
+		{"v1_no_auction_params", func(w *world, p params) []string {
+			// the app is white-listed for V1 liquidation before its auction parameters exist: the auction start, a late inner
+			// step of every vault liquidation, fails by itself
+			w.base("0.5")
+			w.v1app("harbor", false)
+			w.vaults(p.NVaults)
+			w.mustBlock(6 * time.Second)
+			w.mustBlock(26 * time.Hour)
+			w.dropPrices(p)
+			w.advance(6 * time.Second)
+			return []string{"liqv1"}
+		}},
+		{"v1_two_apps", func(w *world, p params) []string {
+			// the app iterated first really liquidates in this block, the second app is swept afterwards
+			w.v1two(p, true, true)
+			w.dropPrices(p)
+			if p.Drop4 {
+				w.setPrice(w.asset["uasset4"], p.Drop, true)
+			}
+			w.advance(6 * time.Second)
+			return []string{"liqv1", "begin"}
+		}},
+		{"v1_two_apps_second_unsafe", func(w *world, p params) []string {
+			w.v1two(p, true, true)
+			w.setPrice(w.asset["uasset4"], p.Drop, true)
+			w.advance(6 * time.Second)
+			return []string{"liqv1"}
+		}},
+		{"v1_two_apps_one_unconfigured", func(w *world, p params) []string {
+			w.v1two(p, p.NVaults%2 == 0, p.NVaults%2 == 1)
+			w.dropPrices(p)
+			w.setPrice(w.asset["uasset4"], p.Drop, true)
+			w.advance(6 * time.Second)
+			return []string{"liqv1"}
+		}},
+		{"v1_two_apps_auctions", func(w *world, p params) []string {
+			w.v1two(p, true, true)
+			w.dropPrices(p)
+			w.setPrice(w.asset["uasset4"], p.Drop, true)
+			w.advance(6 * time.Second)
+			w.histHook("liqv1")
+			w.note("v1 locked vaults=%d", len(w.App.LiquidationKeeper.GetLockedVaults(w.Ctx)))
+			w.advance(time.Duration([]int64{6, 150, 301, 400}[p.NVaults%4]) * time.Second)
+			return []string{"aucv1", "liqv1"}
+		}},
+		{"v1_lend_unsafe", func(w *world, p params) []string {
+			// the V1 borrow sweep (part of the V1 liquidation begin blocker) meets unsafe borrows
+			w.base("0.5")
+			w.v1app("harbor", true)
+			w.v1lendParams()
+			w.lending(p.NBorrows)
+			w.vaults(p.NVaults)
+			w.mustBlock(6 * time.Second)
+			w.mustBlock(26 * time.Hour)
+			w.dropPrices(p)
+			w.advance(6 * time.Second)
+			return []string{"liqv1"}
+		}},
+		{"v1_lend_no_params", func(w *world, p params) []string {
+			w.base("0.5")
+			w.v1app("harbor", true)
+			w.lending(p.NBorrows)
+			w.vaults(p.NVaults)
+			w.mustBlock(6 * time.Second)
+			w.mustBlock(26 * time.Hour)
+			w.dropPrices(p)
+			w.advance(6 * time.Second)
+			return []string{"liqv1"}
+		}},
+		{"debt_price_inactive_two_apps", func(w *world, p params) []string {
+			// the debt asset's price goes inactive: harbor's steps fail at their first price lookup, osmovlt's (debt asset at a
+			// fixed price) only when the auction is started - after the collateral was moved and the locked vault written
+			w.unsafe(p)
+			w.setPrice(w.asset["uasset4"], p.Drop, true)
+			w.setPrice(w.asset["uasset3"], 1000000, false)
+			w.advance(6 * time.Second)
+			return []string{"begin"}
+		}},
+		{"two_apps_one_dutch_disabled", func(w *world, p params) []string {
+			w.unsafe(p)
+			w.setPrice(w.asset["uasset4"], p.Drop, true)
+			if p.NVaults%2 == 0 {
+				w.whitelist("harbor", false, true)
+			} else {
+				w.whitelist("osmovlt", false, true)
+			}
+			w.advance(6 * time.Second)
+			return []string{"begin"}
+		}},
 		{"lend_only_stable_debt", func(w *world, p params) []string {
 			// asset 2 has stable-rate parameters 0/0/0 (accepted by AddAssetRatesParams); the only debt in it is a STABLE
 			// borrow (allowed because stable borrowing is switched on for the pair's collateral asset 3)
@@ -312,7 +448,7 @@ func stateBuilders() []stateBuilder {
 		}},
 		{"v1_esm_after_restart", func(w *world, p params) []string {
 			w.v1esm(p)
-			hookByName("aucv1").fn(w, w.Ctx)
+			w.histHook("aucv1")
 			w.note("after V1 auction begin blocker: v1 dutch auctions=%d vaults=%d counter=%d", len(w.App.AuctionKeeper.GetDutchAuctions(w.Ctx, w.app["harbor"])),
 				len(w.App.VaultKeeper.GetVaults(w.Ctx)), w.App.VaultKeeper.GetLengthOfVault(w.Ctx))
 			w.advance(6 * time.Second)
@@ -363,12 +499,14 @@ func stateBuilders() []stateBuilder {
 		{"liq_pending", func(w *world, p params) []string {
 			w.base("0.5")
 			w.liquidity(30 * time.Second)
+			w.liquidityIn("harbor", 30*time.Second)
 			w.advance(0)
 			return []string{"end", "begin"}
 		}},
 		{"liq_expired", func(w *world, p params) []string {
 			w.base("0.5")
 			w.liquidity(10 * time.Second)
+			w.liquidityIn("harbor", 10*time.Second)
 			w.mustBlock(6 * time.Second)
 			w.mustBlock(6 * time.Second)
 			w.advance(0)
